@@ -35,6 +35,16 @@ def exits(rng, p_fail=0.3):
     return out
 
 
+def tidy_choice(rng, proj, p=0.3):
+    """Tasks that clear *.json in their output directory when they start ("rm"), or also write their own args.json /
+    options.json ("clobber": only for tasks that declare both, so that Conductor's records must replace them)."""
+    out = {}
+    for t in proj["tasks"]:
+        if t["kind"] == "run_experiment" and rng.random() < p:
+            out[t["name"]] = "clobber" if (t.get("args") and t.get("options")) else "rm"
+    return out
+
+
 def run_step(rng, clock, target="//:all", again=None, p_fail=0.3, jobs=None, label=None):
     argv = ["run", target]
     if again if again is not None else rng.random() < 0.5:
@@ -57,6 +67,8 @@ def gc_plants(rng):
         {"path": "cond-out/pk/sub/c.task.3", "kind": "dir", "files": {"w": "unrecorded"}},
         {"path": "cond-out/pk/deeper/new/e.task.9", "kind": "dir", "files": {"w": "unrecorded in unknown package"}},
         {"path": "cond-out/linkout", "kind": "symlink", "target": "../../outside"},
+        {"path": "cond-out/previous", "kind": "symlink", "target": "../cond-out-2023"},
+        {"path": "cond-out/pk/older", "kind": "symlink", "target": "../../cond-out-2023/sweep"},
         {"path": "cond-out/pk/linkin", "kind": "symlink", "target": "../pk"},
         {"path": "cond-out/d.task.1/sub/y.task.2", "kind": "dir", "files": {"w": "inside unrecorded"}},
     ]
